@@ -113,6 +113,22 @@ theorem rangeLen_rat (a b step : Rat) (hs : step ≠ 0) (hc : countBefore a b st
       · have := mul_le_mul_of_nonpos_right hle hn.le
         linarith
     simp only [if_neg hneg]
+    have hlt : (((b - a) / step).ceil : Rat) - 1 < (b - a) / step := by
+      have := (Rat.lt_ceil_iff (x := (b - a) / step) (y := ((b - a) / step).ceil - 1)).mp (by omega)
+      push_cast at this
+      exact this
+    have hneg2 : ¬ ((0 < step ∧ ¬ a + (ratOps.ceil (ratOps.div (b - a) step) - 1) * step < b) ∨
+        (step < 0 ∧ ¬ b < a + (ratOps.ceil (ratOps.div (b - a) step) - 1) * step)) := by
+      show ¬ ((0 < step ∧ ¬ a + ((((b - a) / step).ceil : Rat) - 1) * step < b) ∨
+        (step < 0 ∧ ¬ b < a + ((((b - a) / step).ceil : Rat) - 1) * step))
+      rintro (⟨hp, hge⟩ | ⟨hn, hge⟩)
+      · have := mul_lt_mul_of_pos_right hlt hp
+        apply hge
+        linarith
+      · have := mul_lt_mul_of_neg_right hlt hn
+        apply hge
+        linarith
+    simp only [if_neg hneg2]
     exact ratAsUsize_intCast _ hc
   · rw [if_neg hdir]
     symm
@@ -223,8 +239,18 @@ theorem rangeLen_int (a b step : Int) (hs : step ≠ 0)
   unfold rangeLen
   by_cases hdir : (0 < step ∧ a < b) ∨ (step < 0 ∧ b < a)
   · rw [if_pos hdir]
-    show intAsUsize (intSteps (b - a) step) = _
     have hd : (0 < step ∧ 0 < b - a) ∨ (step < 0 ∧ b - a < 0) := by omega
+    have hneg2 : ¬ ((0 < step ∧ ¬ a + (intSteps (b - a) step - 1) * step < b) ∨
+        (step < 0 ∧ ¬ b < a + (intSteps (b - a) step - 1) * step)) := by
+      rcases hd with ⟨hp, hs⟩ | ⟨hn, hs⟩
+      · have := (intSteps_pos (b - a) step hp hs).1
+        rintro (⟨_, h⟩ | ⟨h, _⟩) <;> omega
+      · have := (intSteps_neg (b - a) step hn hs).1
+        rintro (⟨h, _⟩ | ⟨_, h⟩) <;> omega
+    show intAsUsize (if (0 < step ∧ ¬ a + (intSteps (b - a) step - 1) * step < b) ∨
+        (step < 0 ∧ ¬ b < a + (intSteps (b - a) step - 1) * step)
+      then intSteps (b - a) step - 1 else intSteps (b - a) step) = _
+    rw [if_neg hneg2]
     have hceil := intSteps_ceil (b - a) step hd
     have hpos := intSteps_pos_of (b - a) step hd
     have hcnt : countBefore (a : Rat) (b : Rat) (step : Rat) = (intSteps (b - a) step).toNat := by
